@@ -15,6 +15,21 @@ claimed = {
          "register descriptors come from insts.Regs; inline integer constants are -16..64; SCC holds one bit; unsafe reinterpret casts in emu/util.go are bit identity. "
          "29 deviations from the manual are recorded in known_findings.txt."),
    design="5 (C03)", technique="deductive verification: WP-style VC generation over go/ssa + SMT (contracts bound to an ISA table)"),
+ "C04": dict(
+   text=("Every per-format decoder (SOP2, SOP1, SOPC, SOPK, SOPP, VOPC, VOP1, VOP2, VOP3a, VOP3b, SMEM, FLAT, DS) and the operand decoder getOperand, "
+         "plus the bit-field helpers, are under contract for all 32/64-bit instruction words: no panic, success exactly on the stated well-formedness conditions, "
+         "ByteSize in {4,8} and never beyond the bytes read, every decoded field equal to the bit-field the GCN3 encoding prescribes, and only the new Inst written. "
+         "The top-level Decode/matchFormat/lookUp layer and the inverse-to-encoding lemma are not yet under contract."),
+   note=(TB + "Assumed: Disassembler.decodeTables well-formedness is stated as a precondition of the format decoders (established by initializeDecodeTable, not yet proved); "
+         "VOP3/SDWA/DPP modifier fields are checked field by field, not against an encoder (the repository has none). Six genuine defects were repaired (fix: commits, known_findings.txt)."),
+   design="5 (C04)", technique="deductive verification: WP-style VC generation over go/ssa + SMT (bit-vector field contracts per format decoder)"),
+ "C07": dict(
+   text=("ReadOperand/WriteOperand/ReadReg/WriteReg/ReadOperandBytes/WriteOperandBytes of the emulation wavefront and the timing wavefront are verified against one abstract "
+         "register model (SGPR/VGPR cell arrays, SCC, VCC, EXEC, M0 with lo/hi halves): for every register kind, width, lane and value a write updates exactly the named cells, "
+         "a read returns them, nothing else changes, and both modes implement the same view. SchedulerImpl.resetRegisterValue and cross-wavefront separation are not yet under contract."),
+   note=(TB + "Assumed: register files are indexed within the per-wavefront allocation (offset preconditions taken from the dispatcher, proved under C09 when claimed); "
+         "the timing register file component is modelled by the cell arrays its Read/Write contract states. One genuine defect repaired (VCCHI write mask)."),
+   design="5 (C07)", technique="deductive verification: WP-style VC generation over go/ssa + SMT (two implementations against one abstract view)"),
  "C11": dict(
    text=("memRangeOverlap (the predicate deciding whether a copy must flush dirty buffers) is proved equivalent to interval intersection for all "
          "non-empty ranges over the full uint64 domain. The splitting loops and completion bookkeeping are not yet under contract."),
